@@ -85,7 +85,7 @@ def cases(draw):
     slice_k = draw(st.sampled_from([None, None, 0, 1, 2, 100]))
     gel = draw(world.gel_graphs([e["id"] for e in eps])) if layers in ("hybrid", "all") else None
     return {"eps": eps, "graphs": graphs, "t2": t2, "agent": agent, "text": text, "t1_ids": t1_ids, "slice_k": slice_k,
-            "gel": gel, "layers": layers}
+            "gel": gel, "layers": layers, "workers": draw(st.sampled_from([None, None, 2, 3, 4, 8]))}
 
 
 # ---------------------------------------------------------------- running the real stage
@@ -95,7 +95,11 @@ def run_t2(case, t2_override=None):
 
     world.reset_engine_globals()
     t2 = copy.deepcopy(case["t2"] if t2_override is None else t2_override)
-    cfg = world.validated_cfg({"t2": t2})
+    over = {"t2": t2}
+    if case.get("workers"):
+        # the sharded (parallel) retrieval path must honour exactly the same contract as the sequential walk
+        over["perf"] = {"parallel": {"enabled": True, "t2": True, "max_workers": int(case["workers"])}}
+    cfg = world.validated_cfg(over)
     ctx = world.make_ctx(cfg, agent=case["agent"], now=world.NOW_ISO, now_ms=world.NOW_MS, enc=world.BowEncoder())
     if case["slice_k"] is not None:
         ctx.slice_budgets = {"t2_k": case["slice_k"]}
@@ -280,7 +284,7 @@ def check_case(case, rec=None):
         eligible = len({e["id"] for e in R.vis if e.get("vec_full") is not None and R.score(e) >= thr})
         truncates = eligible > k and len(hits) == k
         nt = foreign_would_rank or truncates or reordered
-        labels = [f"scope={str(t2cfg.get('owner_scope')).lower()}", f"layers={case['layers']}"] + \
+        labels = [f"scope={str(t2cfg.get('owner_scope')).lower()}", f"layers={case['layers']}", "path=" + ("sharded" if case.get("workers") else "sequential")] + \
                  (["well_separated"] if well_separated else ["ambiguous"]) + (["foreign_would_rank"] if foreign_would_rank else []) + \
                  (["truncates"] if truncates else []) + (["reordered"] if reordered else []) + (["hits>0"] if hits else []) + \
                  (["residual>0"] if rids else [])
